@@ -24,8 +24,7 @@ Theorem C10_terms_facet_spec : forall f size ms r,
      forall e, In e (fr_entries r) -> e_lt e (t, occ f t ms)) /\
   fr_total r = total_spec ms /\
   fr_other r + zsum (map snd (fr_entries r)) = fr_total r /\
-  fr_other r = rejected_spec f ms +
-               zsum (map snd (skipn (Z.to_nat size) (sort_entries (tb_counts (tfb_run f ms))))) /\
+  fr_other r = rejected_spec f ms + unlisted_spec f ms (fr_entries r) /\
   fr_missing r = missing_spec f ms.
 Proof. exact terms_facet_spec. Qed.
 Print Assumptions C10_terms_facet_spec.
@@ -62,6 +61,7 @@ Theorem C10_range_facet_spec :
      forall e, In e (fr_entries r) -> e_lt e (rname x, range_count value_of inr x ms)) /\
   fr_total r = range_total value_of inr ranges ms /\
   fr_other r + zsum (map snd (fr_entries r)) = fr_total r /\
+  fr_other r = unlisted_ranges rname value_of inr ranges ms (fr_entries r) /\
   fr_missing r = range_missing ms.
 Proof. exact @range_facet_spec. Qed.
 Print Assumptions C10_range_facet_spec.
@@ -77,6 +77,7 @@ Theorem C10_numeric_facet_spec : forall ranges size (ms : list doc) r,
      forall e, In e (fr_entries r) -> e_lt e (nr_name x, range_count num_value_of num_inr x ms)) /\
   fr_total r = range_total num_value_of num_inr ranges ms /\
   fr_other r + zsum (map snd (fr_entries r)) = fr_total r /\
+  fr_other r = unlisted_ranges nr_name num_value_of num_inr ranges ms (fr_entries r) /\
   fr_missing r = range_missing ms.
 Proof. exact (range_facet_spec nr_name num_value_of num_inr). Qed.
 Print Assumptions C10_numeric_facet_spec.
@@ -92,6 +93,7 @@ Theorem C10_date_facet_spec : forall ranges size (ms : list doc) r,
      forall e, In e (fr_entries r) -> e_lt e (dr_name x, range_count date_value_of date_inr x ms)) /\
   fr_total r = range_total date_value_of date_inr ranges ms /\
   fr_other r + zsum (map snd (fr_entries r)) = fr_total r /\
+  fr_other r = unlisted_ranges dr_name date_value_of date_inr ranges ms (fr_entries r) /\
   fr_missing r = range_missing ms.
 Proof. exact (range_facet_spec dr_name date_value_of date_inr). Qed.
 Print Assumptions C10_date_facet_spec.
@@ -185,3 +187,7 @@ Print Assumptions C10_result_independent_of_map_order.
 Theorem C10_check_is_direct : forall c, check c = check_direct c.
 Proof. exact check_is_direct. Qed.
 Print Assumptions C10_check_is_direct.
+
+Theorem C10_checked_docs_nodup : forall tv d, In d (map dv_text tv) -> NoDup d.
+Proof. exact checked_docs_nodup. Qed.
+Print Assumptions C10_checked_docs_nodup.
